@@ -92,6 +92,100 @@ fn call_form_deep(tape: &[u32], st: &mut Stats) -> CaseResult {
     run(tape, st, &cfg_deep())
 }
 
+/// "at any nesting": calls nested 1-120 deep (in first or second arguments) and one call of the text
+/// wrapped in 0-200 additional parentheses
+fn call_form_nesting(tape: &[u32], st: &mut Stats) -> CaseResult {
+    let mut t = Tape::new(tape);
+    let cfg = CaseCfg {
+        table: TableCfg { alpha_pct: 85, max_bin: 4, max_un: 2, ..TableCfg::default() },
+        tree: TreeCfg { max_operands: 120, lit_pct: 35, unary_pct: 3, shape_weights: [2, 3, 5], ..TreeCfg::default() },
+        render: RenderCfg { call_pct: 97, sym_call_pct: 40, redundant_paren_pct: 0, juxta_pct: 50, ..RenderCfg::default() },
+        max_vars: 4,
+        weird_pct: 0,
+    };
+    let mut case = gen_term_case(&mut t, &cfg);
+    // wrap one call in extra parentheses
+    let calls: Vec<usize> = (0..case.toks.len().saturating_sub(1))
+        .filter(|i| case.toks[*i].kind == TokKind::Op && case.toks[*i + 1].kind == TokKind::Open && {
+            // a call, not a unary operator applied to a parenthesised operand: its group contains a comma at depth 1
+            let mut d = 0i32;
+            let mut comma = false;
+            for k in &case.toks[*i + 1..] {
+                match k.kind {
+                    TokKind::Open => d += 1,
+                    TokKind::Close => {
+                        d -= 1;
+                        if d == 0 {
+                            break;
+                        }
+                    }
+                    TokKind::Comma if d == 1 => comma = true,
+                    _ => {}
+                }
+            }
+            comma
+        })
+        .collect();
+    let extra = match t.choose(4) {
+        0 => 0,
+        1 => 1 + t.choose(62),
+        2 => 60 + t.choose(12),
+        _ => 64 + t.choose(137),
+    };
+    let mut wrapped_depth = 0;
+    if !calls.is_empty() && extra > 0 {
+        let start = *t.pick(&calls);
+        let mut d = 0i32;
+        let mut end = start;
+        for (k, tk) in case.toks.iter().enumerate().skip(start + 1) {
+            match tk.kind {
+                TokKind::Open => d += 1,
+                TokKind::Close => {
+                    d -= 1;
+                    if d == 0 {
+                        end = k;
+                        break;
+                    }
+                }
+                _ => {}
+            }
+        }
+        wrapped_depth = case.toks[..start].iter().fold(0i32, |a, k| match k.kind {
+            TokKind::Open => a + 1,
+            TokKind::Close => a - 1,
+            _ => a,
+        }) as usize;
+        let mut toks = Vec::with_capacity(case.toks.len() + 2 * extra);
+        toks.extend_from_slice(&case.toks[..start]);
+        toks.extend((0..extra).map(|_| Tok::open()));
+        toks.extend_from_slice(&case.toks[start..=end]);
+        toks.extend((0..extra).map(|_| Tok::close()));
+        toks.extend_from_slice(&case.toks[end + 1..]);
+        case.text = join_tokens(&toks, &case.table, &mut t, 10);
+        case.toks = toks;
+    }
+    let depth = case.toks.iter().fold((0usize, 0usize), |(d, m), k| match k.kind {
+        TokKind::Open => (d + 1, m.max(d + 1)),
+        TokKind::Close => (d.saturating_sub(1), m),
+        _ => (d, m),
+    }).1;
+    st.class_if(calls.len() >= 20, ">=20 calls");
+    st.class_if(calls.len() >= 65, ">=65 calls");
+    st.class_if(depth >= 64, "parenthesis depth >= 64");
+    st.class_if(depth >= 128, "parenthesis depth >= 128");
+    st.class_if(extra >= 64 && !calls.is_empty(), "a call inside >= 64 extra parentheses");
+    st.class_if(wrapped_depth + extra >= 64 && !calls.is_empty(), "a call starting at parenthesis depth >= 64");
+    if !calls.is_empty() && depth >= 20 {
+        if st.nontrivial(&format!("{}|{}", case.text, describe_table(&case.table))) && st.want_sample() {
+            st.sample(case.describe());
+        }
+    }
+    for r in [Route::Flat, Route::FlatWo, Route::Deep] {
+        case.check_route("C08", r)?;
+    }
+    Ok(())
+}
+
 // ---------------------------------------------------------------------------------------------
 // the built-in tables: exact arithmetic only, so that any grouping gives bit-identical results
 
@@ -244,6 +338,11 @@ pub fn def() -> PropDef {
                 name: "call_form_deep",
                 rule: "as call_form with 1-40 operands, right-deep shapes, 85% calls: nesting of calls in second arguments to depth > 12",
                 kind: Kind::Tape { len: 1200, quick: 8_000, thorough: 400_000, f: call_form_deep },
+            },
+            SubCheck {
+                name: "call_form_nesting",
+                rule: "table(85% alphabetic) x tree(1-120 operands; random, left-deep and right-deep shapes) rendered with 97% calls, one call of the text wrapped in 0, 1-62, 60-71 or 64-200 additional parentheses; non-trivial = a call and parenthesis depth >= 20; distinct by text+table",
+                kind: Kind::Tape { len: 2500, quick: 1_500, thorough: 100_000, f: call_form_nesting },
             },
             SubCheck {
                 name: "call_form_float",
